@@ -327,10 +327,11 @@ static int ratom_match(struct ratom *ra, struct rstate *rs)
 	if (ra->ra == RA_END && rs->s[0] == '\n')
 		return !(rs->flg & REG_NEWLINE);
 	if (ra->ra == RA_WBEG)
-		return !((rs->s == rs->o || !isword(uc_beg(rs->o, rs->s - 1))) &&
-			isword(rs->s));
+		return !((rs->s == rs->o ? !(rs->flg & REG_WORDBEF) :
+				!isword(uc_beg(rs->o, rs->s - 1))) && isword(rs->s));
 	if (ra->ra == RA_WEND)
-		return !(rs->s != rs->o && isword(uc_beg(rs->o, rs->s - 1)) &&
+		return !((rs->s == rs->o ? !!(rs->flg & REG_WORDBEF) :
+				isword(uc_beg(rs->o, rs->s - 1))) &&
 			(!rs->s[0] || !isword(rs->s)));
 	return 1;
 }
